@@ -36,7 +36,9 @@ pub enum Prefix {
     RequestQueued,
 }
 
-pub const PEER_RB: u32 = 16;
+/// deliberately different from (much larger than) the endpoint's own receive buffer: nothing the peer
+/// advertises about itself may widen what the endpoint accepts
+pub const PEER_RB: u32 = 4096;
 pub const LOCAL_RB: u32 = 16;
 pub const LOCAL_CS: u32 = 8;
 pub const LOCAL_CQ: u16 = 2;
@@ -572,6 +574,9 @@ pub fn scenarios(tier: Tier) -> Vec<Arc<dyn Scenario>> {
     let full = a.iter().position(|(n, _)| n == "Data:lp:FL:8").unwrap();
     out.push(Arc::new(PeerScenario { prefix: Prefix::ConnectedIdle, seq: vec![full, full, full] }));
     out.push(Arc::new(PeerScenario { prefix: Prefix::ConnectedIdle, seq: vec![full, full, full, full, full] }));
+    // far beyond the endpoint's own receive buffer, although still within the (larger) buffer the peer advertised for itself
+    out.push(Arc::new(PeerScenario { prefix: Prefix::ConnectedIdle, seq: vec![full; 12] }));
+    out.push(Arc::new(PeerScenario { prefix: Prefix::ConnectedIdle, seq: vec![full; 24] }));
     // OpenPort flood beyond connect_queue
     let open = a.iter().position(|(n, _)| n == "OpenPort:w:new").unwrap();
     let open2 = a.iter().position(|(n, _)| n == "OpenPort:max").unwrap();
